@@ -15,6 +15,7 @@ import (
 
 	"verif/harness/internal/drive"
 	"verif/harness/internal/prog"
+	"verif/harness/internal/sched"
 )
 
 type JobOpts struct {
@@ -96,6 +97,7 @@ func WorkerMain(args []string) int {
 		p := job.Programs[sch.Prog]
 		// progress marker: lets the parent attribute a crash to this run
 		fmt.Fprintf(out, "{\"run\":%d,\"begin\":true}\n", i)
+		sched.Install(sched.ForRun(job.Opts.Perturb, job.Opts.Seed, i))
 		log := drive.Run(i, p, sch, job.Opts.driveOpts())
 		line, _ := json.Marshal(RunLog{Run: i, Log: log})
 		out.Write(append(line, '\n'))
